@@ -240,6 +240,17 @@ func (p *prover) norm1(v ssa.Value) lin {
 			p.extra = append(p.extra, p.lenOf(x.Call.Args[0]).add(r, -1).add(linConst(1), -1)) // len - r - 1 ≥ 0
 			p.notes["contract: "+n+" returns -1 ≤ r < len(s)"] = true
 			return r
+		case "os.Getpagesize":
+			t := describe(v)
+			p.nonneg[t] = true
+			p.extra = append(p.extra, linTerm(t).add(linConst(1), -1))
+			p.notes["contract: os.Getpagesize() ≥ 1"] = true
+			return linTerm(t)
+		case "(io/fs.FileInfo).Size", "(os.FileInfo).Size":
+			t := describe(v)
+			p.nonneg[t] = true
+			p.notes["contract: FileInfo.Size() ≥ 0 for regular files"] = true
+			return linTerm(t)
 		case "runtime.Callers":
 			t := describe(v)
 			r := linTerm(t)
